@@ -75,7 +75,18 @@ def generate(prop, seed):
                 progs[ti].append(['exception'])
     sc = {'programs': progs, 'strategy': gen_strategy(rng, 100),
           'sched_seed': rng.randrange(1 << 62), 'seed': seed, 'prop': prop}
-    if rng.random() < 0.2:
+    r = rng.random()
+    if 0.2 <= r < 0.38:
+        # statement-level pre-emption of the ordinary programs: every mutator
+        # is atomic under the coordinator lock, so the history must still be
+        # linearizable however the statements of two calls interleave.  Plain
+        # reads of .status / .exception are left out: a reader may legitimately
+        # see set_result() half-way (the statement is about the state once done
+        # is announced and about done(), which is a single read).
+        sc['mode'] = 'lines'
+        sc['programs'] = [[op for op in p if op[0] not in ('status', 'exception')]
+                          for p in progs]
+    if r < 0.2:
         # statement-level pre-emption: no set_result / override, so the first
         # recorded failure is final; an extra thread blocks in result()
         sc['mode'] = 'waiter'
@@ -306,7 +317,7 @@ def execute(sc, choices=None, lenient=False):
                                        'result() raised %r, stored exception is %r' % (x, e), {}])
 
     lp = False
-    if waiter_mode:
+    if waiter_mode or sc.get('mode') == 'lines':
         from . import linepre
         lp = linepre.enable()
         sim.max_steps *= 25
